@@ -19,9 +19,10 @@ if ! git apply "$patch" 2>/dev/null; then
     fi
   fi
 fi
-mkdir -p $S/gen $S/evidence /verif/.work
-cd /verif
-HMCLAB_GEN=$S/gen HMCLAB_EVIDENCE=$S/evidence HMCLAB_REPO=$S/repo PYTHONPATH=$S/repo PYTHONHASHSEED=0 /venv/bin/python check.py "$pid" --tier "$tier" > /verif/.work/seedtest_$pid.log 2>&1
+V=${VERIF_DIR:-/verif}     # (a development copy of /verif can be tried out without touching runs in progress)
+mkdir -p $S/gen $S/evidence $V/.work
+cd $V
+HMCLAB_GEN=$S/gen HMCLAB_EVIDENCE=$S/evidence HMCLAB_REPO=$S/repo PYTHONPATH=$S/repo PYTHONHASHSEED=0 /venv/bin/python check.py "$pid" --tier "$tier" > $V/.work/seedtest_$pid.log 2>&1
 rc=$?
-echo "seed $pid: check exit $rc"; grep -E "^VIOLATION|^KNOWN" /verif/.work/seedtest_$pid.log | cut -c1-300 | head -5
+echo "seed $pid: check exit $rc"; grep -E "^VIOLATION|^KNOWN" $V/.work/seedtest_$pid.log | cut -c1-300 | head -5
 exit 0
